@@ -2,82 +2,94 @@
 
 The pairing rules of C06 / C07 decide that edits are followed by refreshes and that views move together;
 they do not decide that an edit *does* what it is named for (that create_root_node re-parents the chosen
-children, that add_data_point_to_outliers adds anything at all …).  This rule closes that gap: every
-method of Tree / TreeNode / the two updating visitors is interpreted by TermFlow (same-class calls kept
-opaque, copies not identified with their originals) and compared — returned value, effects in order with
-the condition under which each happens, final attribute stores — with the frozen reference source in
-_treespec_src.py (the pinned, repaired implementation, reviewed against the statements).  Semantics-
-preserving refactors (renames, statement split/merge, helper extraction inside a method, commutative
-reordering) are invisible; a dropped, added, reordered or re-conditioned effect is reported.
+children, that add_data_point_to_outliers adds anything at all, that get_parent reads the first
+predecessor …).  This rule closes that gap.  Every method of Tree / TreeNode (and tree.utils' clade
+helpers) is interpreted by TermFlow with same-class helpers inlined and compared with the frozen
+reference source in _treespec_src.py (the pinned, repaired implementation, reviewed against the
+statements):
+
+* queries (no effects): the returned term;
+* editors: in every guard scenario, the multiset of *primitive* effects — calls on the rustworkx graph,
+  on node payloads, on the per-clone data lists, stores into the maps and slots — with their receivers and
+  arguments; refresh calls (_update_path_to_root / update / _update_node) are excluded (where and whether
+  to refresh is decided by C06.M1 / M2, which accept a full update() for a path refresh), printing too.
+
+Insensitive to renaming, statement split/merge, helper extraction / inlining, reordering of independent
+effects, `x += v` vs `x = x + v`, refreshing more than needed; sensitive to a dropped, added or
+re-conditioned effect, a wrong receiver / argument / index, a changed returned value.
 """
 import ast
 
-from ..formula import extract, same, same_events, spec
+from ..formula import extract, same, same_effects, spec
 from ..model import AnalysisError
-from ..termflow import Unsupported, show
+from ..termflow import Poly, Unsupported, show
 from ._treespec_src import REFERENCE
 
-# pure queries: their order relative to other calls is immaterial, they are compared through the terms they feed
-QUERIES = {
+REFRESH = {"_update_path_to_root", "update", "_update_node", "update_node_from_child_r_vals"}
+# never compared as effects: pure queries, constructors, printing, and the refresh calls
+IGNORED = {
     ".successors", ".predecessors", ".node_indices", ".nodes", ".num_nodes", ".out_degree", ".in_degree", ".edge_list", ".items", ".values",
     ".keys", ".copy", ".get", ".weighted_edge_list", ".isdisjoint", ".subgraph", "rustworkx.descendants", "rustworkx.all_simple_paths",
     "len", "sorted", "list", "max", "min", "sum", "isinstance", "itertools.chain.from_iterable", "log", "np.full", "np.zeros", "str", "int", "frozenset", "set",
     "collections.defaultdict", "new:TreeNode", "new:Tree", "rustworkx.PyDiGraph", "new:PostOrderNodeUpdater", "new:PreOrderNodeRelabeller",
-    "new:GraphToCladesVisitor", "new:GraphToNewickVisitor", "np.array_equal", "map",
+    "new:GraphToCladesVisitor", "new:GraphToNewickVisitor", "np.array_equal", "map", "print", "dict", ".__new__", "compute_log_S",
+    "rustworkx.dfs_search", ".format",
+} | {"." + r for r in REFRESH}
+
+# methods that only compute a value
+QUERY_METHODS = {
+    "graph@getter", "data@getter", "data_log_likelihood@getter", "labels@getter", "nodes@getter", "get_number_of_nodes", "node_data@getter",
+    "outliers@getter", "roots@getter", "get_children", "get_number_of_children", "get_descendants", "get_number_of_descendants", "get_parent",
+    "get_data", "get_data_len", "get_subtree_data_len", "multiplicity@getter", "node_last_added_to@getter", "root_node_name@getter",
+    "outlier_node_name@getter", "to_newick_string", "get_clades", "to_dict", "_clades",
 }
+SKIP = {"phyclone.tree.tree.Tree.update", "phyclone.tree.tree.Tree._update_path_to_root", "phyclone.tree.tree.Tree._update_node",
+        "phyclone.tree.tree_node.TreeNode.update_node_from_child_r_vals", "phyclone.tree.tree.Tree.copy", "phyclone.tree.tree_node.TreeNode.copy"}
 
 
 def _effects(ex):
     out = []
     for e in ex.events:
-        if e.name in QUERIES:
+        if e.name in IGNORED or e.name.startswith(".get_"):
             continue
-        if e.name.startswith(".get_") or e.name in (".get_parent", ".get_children", ".get_data", ".get_data_len", ".get_descendants"):
+        if e.name == "store_attr" and isinstance(e.kwargs.get("attr"), str) and e.kwargs["attr"].startswith("__"):
             continue
+        if e.name == "store_attr" and e.kwargs.get("attr") == "log_r":
+            continue  # a cache: what it must hold after an edit is decided by C06.M2 / M3 and the refresh rules
         out.append(e)
     return out
 
 
-def _self_methods(prog, ci):
-    names = set()
-    for c in prog.mro(ci):
-        names |= set(c.methods)
-    return names - {"__init__"}
-
-
-def rule_TS(ctx, owners=None, rule="TS", skip=()):
+def rule_TS(ctx, owners=None, rule="TS", only=None):
     prog = ctx.prog
-    ctx.rule(rule, "tree editor methods agree with the frozen reference semantics (returned value, ordered effects with their conditions, final stores)", 30)
+    ctx.rule(rule, "tree editor methods agree with the frozen reference semantics: returned term of the queries; per guard scenario the multiset of primitive effects of the editors (refresh calls excluded)", 8)
     done = 0
     for q, src in REFERENCE.items():
-        owner = q.rsplit(".", 1)[0]
+        owner, name = q.rsplit(".", 1)
         if owners is not None and not any(owner.endswith(o) for o in owners):
             continue
-        if q in skip:
+        if q in SKIP or (only is not None and name not in only) or "visitors." in q:
             continue
         fi = prog.functions.get(q)
         short = q.split("phyclone.")[-1]
         if fi is None:
             ctx.fail(rule, short + " exists", "phyclone", "the reference method %s no longer exists under that name" % q, construct=q, stmt="method present")
             continue
-        opaque = _self_methods(prog, fi.cls) if fi.cls is not None else set()
-        opts = dict(opaque_self_methods=opaque, copy_is_identity=False, no_inline=["compute_log_S", "_clades", "get_clades"])
+        opts = dict(opaque_self_methods=REFRESH, no_inline=["compute_log_S"], copy_is_identity=True)
+        if name in ("_clades", "get_clades") and owner.endswith("tree.utils"):
+            opts["no_inline"] = ["compute_log_S", "_clades"]
         try:
             ex = extract(prog, fi, **opts)
             sp = spec(prog, src, fi, **opts)
         except Unsupported as e:
             ctx.note("%s: not interpretable by TermFlow (%s) - covered by the pairing rules only" % (short, str(e)[:100]))
             continue
-        ok = True
-        ok &= same(ctx, rule, short + ": returned value", fi, ex.result, sp.result, "returned value", stmt="result")
-        ok &= same_events(ctx, rule, short + ": effects", fi, _effects(ex), _effects(sp), "ordered effects", guards=True)
-        gs, ws = ex.stores(), sp.stores()
-        for k in sorted(set(gs) | set(ws), key=repr):
-            if k not in gs or k not in ws:
-                ctx.fail(rule, "%s: final store .%s" % (short, k[1]), fi.where(), "attribute .%s is %s in the code and %s in the reference" % (k[1], "stored" if k in gs else "not stored", "stored" if k in ws else "not stored"), construct=q, stmt="store ." + k[1])
-                ok = False
-            else:
-                ok &= same(ctx, rule, "%s: final store .%s" % (short, k[1]), fi, gs[k], ws[k], "." + k[1], stmt="store ." + k[1])
+        if name in QUERY_METHODS:
+            same(ctx, rule, short + ": value", fi, ex.result, sp.result, "returned value", stmt="result")
+        else:
+            same_effects(ctx, rule, short + ": effects", fi, _effects(ex), _effects(sp), "primitive effects")
+            if sp.result is not None and not (isinstance(sp.result, Poly) and "«" in show(sp.result)):
+                same(ctx, rule, short + ": value", fi, ex.result, sp.result, "returned value", stmt="result")
         done += 1
         ctx.analysed(fi)
     return done
